@@ -335,7 +335,11 @@ impl fmt::Display for FunctionDefinition {
         if self.has_keyword {
             f.write_str("function ")?;
         }
-        write!(f, "{}() {}", self.name, self.body)
+        let name = self.name.to_string();
+        // A name ending with `$` must not be directly followed by `(`, or the
+        // two characters would be read as the start of a command substitution.
+        let separator = if name.ends_with('$') { " " } else { "" };
+        write!(f, "{name}{separator}() {}", self.body)
     }
 }
 
@@ -972,6 +976,14 @@ mod tests {
             body: Rc::new(body),
         };
         assert_eq!(fd.to_string(), "foo() (bar)");
+    }
+
+    #[test]
+    fn function_definition_display_name_ending_with_dollar() {
+        let command: Command = "x$ () { :; }".parse().unwrap();
+        assert_eq!(command.to_string(), "x$ () { :; }");
+        let reparsed: Command = command.to_string().parse().unwrap();
+        assert_eq!(reparsed.to_string(), command.to_string());
     }
 
     #[test]
